@@ -34,7 +34,7 @@ func TestC01(t *testing.T) {
 	rec.Assume("reference hop MAC = AES-CMAC (RFC 4493) over the 16-byte input block of scion-header.rst with the PBKDF2-derived key (internal/ref)", "expiry = timestamp + (1+ExpTime) * 337.5 s; the instant of equality is not asserted",
 		"6-byte MAC collisions ignored")
 	rec.Require("fault_none", "fault_mac", "fault_mac_after_xover", "fault_segid", "fault_timestamp", "fault_exptime", "fault_interfaces", "primed_with_valid_twin", "fault_expired", "fault_expired_after_xover", "fault_not_yet_expired",
-		"arrival_host", "arrival_ext", "arrival_sib", "xover", "peering", "deliver", "egress_sibling", "answered_scmp")
+		"arrival_host", "arrival_ext", "arrival_sib", "xover", "peering", "deliver", "egress_sibling", "answered_scmp", "router_alert_on_refused_hop")
 	rapid.Check(t, func(rt *rapid.T) {
 		var fail string
 		var labels []string
@@ -126,13 +126,42 @@ func TestC01(t *testing.T) {
 				}
 				time.Sleep(time.Until(expiry.Add(delta)))
 			}
+			// A router-alert flag (not MAC input) on a hop field that does not validate asks for nothing: the
+			// refusal comes first, no traceroute answer is given on behalf of a forged hop field.
+			alert := ""
+			if !wantForward {
+				alert = rapid.SampledFrom([]string{"", "", "ingress", "egress", "both"}).Draw(rt, "routerAlert")
+				if target != k.h && alert != "" {
+					// An ingress alert on the (valid) current hop field diverts the packet to the traceroute
+					// handling before the next segment's first hop field is looked at; the packet is then
+					// answered or sent back, not forwarded along the path. Only the egress alert is neutral there.
+					alert = "egress"
+				}
+				if alert == "ingress" || alert == "both" {
+					if k.consdir[k.segOf(k.h)] {
+						k.hops[k.h].IngressRouterAlert = true
+					} else {
+						k.hops[k.h].EgressRouterAlert = true
+					}
+				}
+				if alert == "egress" || alert == "both" {
+					if k.consdir[k.segOf(k.vHop)] {
+						k.hops[k.vHop].EgressRouterAlert = true
+					} else {
+						k.hops[k.vHop].IngressRouterAlert = true
+					}
+				}
+				if alert != "" {
+					labels = append(labels, "router_alert_on_refused_hop")
+				}
+			}
 			raw, err := k.serialize()
 			if err != nil {
 				fail = "harness: " + err.Error()
 				return
 			}
 			r := l.inject(k, raw)
-			desc := fmt.Sprintf("%v fault=%s target hop %d", k, fault, target)
+			desc := fmt.Sprintf("%v fault=%s target hop %d alert=%q", k, fault, target, alert)
 			if wantForward {
 				want, err := k.expectForward(raw)
 				if err != nil {
